@@ -14,6 +14,7 @@ import (
 
 func init() {
 	register(&PropertyCheck{ID: "C14", Level: "proof", Run: checkC14, Canaries: []Canary{
+		{Name: "will-allocated-only-when-missing-by-a-helper", Rule: "R14.9", Where: "(*Connect).UnmarshalBinary", Edits: []Edit{{"connect.go", "\t\tp.will = NewPublish()\n\t\tp.will.SetQoS(p.willQoS())", "\t\tp.ensureWill()\n\t\tp.will.SetQoS(p.willQoS())"}, {"connect.go", "func (p *Connect) willPropertyMap() map[Ident]func() wireType {", "func (p *Connect) ensureWill() {\n\tif p.will == nil {\n\t\tp.will = NewPublish()\n\t}\n}\n\nfunc (p *Connect) willPropertyMap() map[Ident]func() wireType {"}}},
 		{Name: "decoder-fills-the-will-the-packet-already-has", Rule: "R14.9", Where: "(*Connect).UnmarshalBinary#Connect.will", Edits: []Edit{
 			{"connect.go", "\t\tp.will = NewPublish()\n\t\tp.will.SetQoS(p.willQoS())", "\t\tp.will = p.willOrNew()\n\t\tp.will.SetQoS(p.willQoS())"},
 			{"connect.go", "func (p *Connect) willPropertyMap() map[Ident]func() wireType {", "func (p *Connect) willOrNew() *Publish {\n\tif p.will != nil {\n\t\treturn p.will\n\t}\n\treturn NewPublish()\n}\n\nfunc (p *Connect) willPropertyMap() map[Ident]func() wireType {"}}},
@@ -716,6 +717,97 @@ func rulePointerFieldsFreshOnDecode(p *Prog, c *Check, e *Effects, scope map[*ss
 				c.Bad(rule, cons, p.Pos(fn.Pos()), bad)
 			} else {
 				c.OK(rule, cons, p.Pos(fn.Pos()), "stored only with objects allocated by the decode; every use in this function is behind the store")
+			}
+		}
+	}
+	// … and a function of the decode scope that uses such a field without storing it at all (the allocation was moved
+	// into a helper that only fills a nil field — `p.ensureWill()` — or is expected from the caller): a packet decoder
+	// may not, a helper may when every call of it in the decode scope lies behind a fresh store in the caller
+	usedLoads := func(fn *ssa.Function) map[string]*ssa.UnOp {
+		out := map[string]*ssa.UnOp{}
+		for _, b := range fn.Blocks {
+			for _, ins := range b.Instrs {
+				ld, ok := ins.(*ssa.UnOp)
+				if !ok || ld.Op != token.MUL {
+					continue
+				}
+				fa, ok := ld.X.(*ssa.FieldAddr)
+				if !ok {
+					continue
+				}
+				name, ok := ptrField(fa)
+				if !ok {
+					continue
+				}
+				if refs := ld.Referrers(); refs != nil {
+					for _, r := range *refs {
+						switch y := r.(type) {
+						case *ssa.DebugRef:
+						case *ssa.BinOp:
+							if !(y.Op == token.EQL || y.Op == token.NEQ) {
+								out[name] = ld
+							}
+						default:
+							out[name] = ld
+						}
+					}
+				}
+			}
+		}
+		return out
+	}
+	hasStore := func(fn *ssa.Function, name string) bool {
+		for _, b := range fn.Blocks {
+			for _, ins := range b.Instrs {
+				if st, ok := ins.(*ssa.Store); ok {
+					if fa, ok := st.Addr.(*ssa.FieldAddr); ok {
+						if nm, ok := ptrField(fa); ok && nm == name {
+							return true
+						}
+					}
+				}
+			}
+		}
+		return false
+	}
+	freshStoreDominates := func(g *ssa.Function, name string, at ssa.Instruction) bool {
+		for _, b := range g.Blocks {
+			for _, ins := range b.Instrs {
+				st, ok := ins.(*ssa.Store)
+				if !ok {
+					continue
+				}
+				fa, ok := st.Addr.(*ssa.FieldAddr)
+				if !ok {
+					continue
+				}
+				if nm, ok := ptrField(fa); !ok || nm != name || !fresh(g, st.Val, 0) {
+					continue
+				}
+				if b.Dominates(at.Block()) && (b != at.Block() || instrIndex(st) < instrIndex(at)) {
+					return true
+				}
+			}
+		}
+		return false
+	}
+	_ = freshStoreDominates
+	for _, fn := range sortedFuncs(scope) {
+		if fn.Blocks == nil || e.deadBlocks(fn)[fn.Blocks[0]] {
+			continue
+		}
+		for name, ld := range usedLoads(fn) {
+			if hasStore(fn, name) || e.deadBlocks(fn)[ld.Block()] {
+				continue
+			}
+			if fn.Name() != "UnmarshalBinary" || fn.Signature.Recv() == nil {
+				continue // helpers and closures: the store is the business of whoever calls them
+			}
+			n++
+			cons := qname(fn) + "#" + name + "#use-without-store"
+			{
+				c.Bad(rule, cons, posOf(p, ld), "the packet decoder uses the "+name+" the packet holds ("+posOf(p, ld)+") and never stores a freshly allocated one itself: the object may be shared with another packet or owned by the caller")
+				continue
 			}
 		}
 	}
